@@ -21,6 +21,51 @@ CHECKS = {
     },
 }
 
+CHECKS.update({
+    'C02': {
+        'category': 'exploration',
+        'technique': 'runtime monitoring at the parse_expression boundary with an independent precedence-climbing parser as oracle; exhaustive operator chains + random trees + token soup',
+        'text': ('Every text is parsed by the real parse_expression and by an independent reference parser; trees must be equal and '
+                 'accept/reject must agree (only BareScriptParserError may escape). All 14^k operator chains for k<=3 (quick) / k<=4 '
+                 '(thorough) with per-operand variants are enumerated; random trees to depth 8 are printed with minimal/redundant '
+                 'parentheses and random whitespace; token soup and single-token mutants test rejection.'),
+        'note': 'Trusts vf/refexpr.py; vocabulary avoids lexical quirks outside the property (1-character callees, +-signed literals, unsigned exponents, trailing blanks in bracket names).',
+        'design_ref': '5/C02',
+    },
+    'C03': {
+        'category': 'exploration',
+        'technique': 'runtime monitoring of evaluate_expression with effect-logging host probes; independent typed operator table (RefEval) as oracle; full operator x operand-pair matrix in several time zones',
+        'text': ('The real evaluator is run on the full matrix 14 operators x 68^2 operands of all nine types (several TZ settings), on '
+                 'random trees whose operands are logging probes (order, exactly-once, laziness of && || if()), and on all 46 '
+                 'expression built-ins against a documentation-derived alias table; values, probe event order and errors must equal '
+                 'the reference.'),
+        'note': 'Trusts vf/refeval.py and vf/refval.py; arithmetic domain errors and % with negative operands are skipped (owned by C05 / unspecified); F14 (booleans as numbers) is classified by the bool-coercing reference variant.',
+        'design_ref': '5/C03',
+    },
+    'C04': {
+        'category': 'exploration',
+        'technique': 'runtime monitoring: watched globals dict (write history, read counts), host-binding identity checks, recording stubs; RefAST as oracle over generated multi-function programs',
+        'text': ('Generated programs with 1-4 functions whose parameter names collide with globals, library names and built-ins are called '
+                 'directly, via variables, systemPartial and library callbacks under host configurations that shadow library names; '
+                 'the log, the global write history (assignments in functions must not appear), final globals and results must equal '
+                 'the reference; host bindings must be identical after the run; a global that only exists as a parameter name must '
+                 'never be read.'),
+        'note': 'Trusts RefAST; arrayLength/arrayGet are never redefined (the for lowering calls them by name); built-in shadowing in expression mode is exercised in C03.',
+        'design_ref': '5/C04',
+    },
+    'C05': {
+        'category': 'fault_enumeration',
+        'technique': 'runtime monitoring: exception-type filter at the API boundary, icontract post-condition on evaluate_expression results, LibrarySpy on every library function, fault-injecting host probes at every call position; RefAST call-wrapper semantics as oracle',
+        'text': ('Adversarial operator matrix (0 divisors, 1e308, +-10**400, negative bases x fractional exponents, inf/nan, extreme '
+                 'datetimes), every library function x argument lists of every length and type under a spy (failure value, debug '
+                 'line, continuation), enumeration of host faults (6 exception classes x every host call position) in generated '
+                 'programs, and programs with / % ** over adversarial globals: nothing but BareScriptRuntimeError/ParserError may '
+                 'escape and every result must be a BareScript value.'),
+        'note': 'F4 (arithmetic host exceptions) repaired by fix commit d92c837; F16 (datetimes within 48h of datetime.min/max) is a listed known finding classified by exception text + operand; single-statement resource exhaustion is out of scope (alarm => inconclusive).',
+        'design_ref': '5/C05',
+    },
+})
+
 NOT_YET = {}
 
 
